@@ -235,7 +235,9 @@ def check(sc, r):
     st = r.final.get(lab)
     wrote_abort = any(p["type"] == 7 for p in pdus)
     if st and "error" not in st and lab not in dead:
-        if not st["aborted"] or not wrote_abort:
+        # (the A-ABORT PDU itself may lose the race against the reactor closing the socket; the peer then sees a closed
+        # connection, which the property counts as ended/aborted as well)
+        if not st["aborted"]:
             out.append(C.v("aborted", "C19/not-aborted/%s" % where, "after a request on unaccepted context %d the association did not end aborted: %s, A-ABORT on wire: %s" % (x, st, wrote_abort)))
     return out
 
